@@ -38,6 +38,9 @@ CHECKS = {
  'C13': dict(cat='model_checking', sec='6 C13',
    text='TLA+ writer/reader tie automata model-checked exhaustively (all lists up to length 10/12, all 2^n indicator vectors); every TLC behaviour replayed into create_string_pref, the reader and Solver file loading (2/3-agent, first/second side). Exhaustive for the stated n.',
    tech='TLC exhaustive model checking of MC_Ties.tla + replay of all exported behaviours into the implementation'),
+ 'C14': dict(cat='fault_enumeration', sec='6 C14',
+   text='MC_Faults.tla enumerates, per criteria sequence (1-7 underlying solves incl. per-rank solves), every placement of every back-end failure kind, transient/persistent, all pairs, limit set/unset, duration patterns, and proves the report rule (NoMatchingUnlessAllProven, ShowsFirstBadOrTimeout) on the specification; every plan is replayed into the real code with outcomes injected at COIN_CMD.actualSolve under three leftover-value policies and a virtual clock, over get_results/_short/_long.',
+   tech='TLC enumeration of fault plans (MC_Faults.tla) + fault injection at the pulp boundary with a virtual clock'),
  'C16': dict(cat='model_checking', sec='6 C16',
    text='Slot placement/compaction modelled and proved to refine the declarative order/refusal rule (MC_Options.tla, positions around 1..9, extras, flag order); every command line replayed into Solver(argv) with a missing file (refusal before reading) and on a real instance (parsed order, reported order); order of solves checked semantically on MC_Solver families with permuted flags and gaps.',
    tech='TLC model checking of MC_Options/MC_Solver + replay into Solver(argv)'),
